@@ -100,14 +100,16 @@ Theorem C09_literal_parse_scalar_is_of_type : forall intern D ty ts l r,
 Proof. exact parse_scalar_of_type. Qed.
 Print Assumptions C09_literal_parse_scalar_is_of_type.
 
-(* ... but NOT for ranges: `2..5` at [u8; 3] is returned as a range of Unspecified numbers, and
-   `0u8..257` at [u8; 257] as a range beyond u8; parse_arg's re-test rejects both (the real code too:
-   C09's number / range scenarios) *)
-Theorem C09_literal_parse_unsuffixed_range_refuted :
+(* ... but NOT for suffixed ranges that leave their element type: `0u8..257` at [u8; 257] is returned
+   as a range beyond u8; parse_arg's re-test rejects it (the real code too).  The other divergence
+   found through this model - an UNSUFFIXED range kept `Unspecified` numbers (`2..5` at [u8; 3]) and was
+   accepted at signed element types - was a genuine defect of check.rs constrain_type, repaired
+   (fix 7bf4e4f) and mirrored in the model: LitExamples.unsuffixed_range_after_fix. *)
+Theorem C09_literal_parse_range_overflow_refuted :
   exists intern D ty text l r,
     literal_parse intern D ty text = COk l /\ rty_of_cty intern D 5 ty = Some r /\ Literal.is_of_type l r = false.
-Proof. exact parse_unsuffixed_range_refuted. Qed.
-Print Assumptions C09_literal_parse_unsuffixed_range_refuted.
+Proof. exact parse_range_overflow_refuted. Qed.
+Print Assumptions C09_literal_parse_range_overflow_refuted.
 
 (* numbers: an unsigned token without suffix or with the suffix of the expected type is accepted
    iff it is in the range of the type, and denotes that number *)
@@ -117,3 +119,27 @@ Theorem C09_number_tokens_exact : forall intern D n sfx u m,
   if Literal.u_in_range n (uty_of u) then COk (Literal.LUnsigned n (uty_of u)) else CErr E_UnexpectedType.
 Proof. exact P2_unsigned. Qed.
 Print Assumptions C09_number_tokens_exact.
+
+(* ------------------------------------------------------------------ PRINTING A VALUE AND PARSING IT
+   BACK YIELDS THE VALUE (Check/LitRoundTrip.v), over tokens ([lit_tokens] models `impl Display for
+   Literal`; the scanner is a separate tied model): the literal mode of the parser reads every printed
+   literal form back ([parse_back], structs and enums included), and the whole path
+   parser -> checker -> check_type -> into_literal returns the literal for the class [rt_ok]:
+   Booleans, numbers in range, tuples, arrays (non-empty; elements all numbers or all of one
+   pre-type), repeat arrays, typed ranges, struct values (fields of the definition in name order)
+   and enum values, arbitrarily nested.  Outside the class and recorded as
+   known findings of the REAL code (found by this check's text jobs earlier, now proved about the
+   model): `[]` for a zero-length array and arrays of aggregates with a number that is negative in
+   one element and non-negative in another at the same position do not come back. *)
+From GV Require Import Check.LitRoundTrip.
+
+Theorem C09_printed_literal_is_read_back_by_the_parser : forall unintern l, pok unintern l = true ->
+  parse_literal_text (fuel_for_tokens (lit_tokens unintern l)) (lit_tokens unintern l)
+  = POk (ulit unintern l) (PState [] true).
+Proof. exact parse_back. Qed.
+Print Assumptions C09_printed_literal_is_read_back_by_the_parser.
+
+Theorem C09_print_parse_round_trip : forall intern unintern D l T, rt_ok intern unintern D l T = true ->
+  literal_parse_tokens intern D T (lit_tokens unintern l) = COk l.
+Proof. exact roundtrip. Qed.
+Print Assumptions C09_print_parse_round_trip.
